@@ -128,6 +128,11 @@ def nonneg_thunk(t, what="", budget=60, samples=40):
         except ValueError:
             old_handler = None
         e = to_sympy(t)
+        # applications of uninterpreted functions (assumed positive by the caller) become fresh positive symbols: the
+        # certificate then holds for every positive value they may take
+        funcs = sorted(e.atoms(sympy.Function), key=str)
+        if funcs:
+            e = e.xreplace({f: sympy.Symbol(f"uf_{k}", positive=True) for k, f in enumerate(funcs)})
         syms = sorted(e.free_symbols, key=str)
         num, den = sympy.fraction(sympy.together(e))
         res = None
